@@ -203,6 +203,7 @@ func writeSTL(wg *sync.WaitGroup, path string) (chan<- []*sdf.Triangle3, error) 
 		var d STLTriangle
 		// read triangles from the channel and write them to the file
 		for ts := range c {
+			simYield("render.writeSTL", uint64(len(ts)))
 			for _, t := range ts {
 				n := t.Normal()
 				d.Normal[0] = float32(n.X)
@@ -224,6 +225,7 @@ func writeSTL(wg *sync.WaitGroup, path string) (chan<- []*sdf.Triangle3, error) 
 				count++
 			}
 		}
+		simYield("render.writeSTL.flush", 0)
 		// flush the triangles
 		buf.Flush()
 
